@@ -384,3 +384,101 @@ def check_c17(pid, tier):
 
 
 CHECKS["C17"] = check_c17
+
+
+# ---- C13 --------------------------------------------------------------------------------------------
+
+def cc_cfg(mut="none", emit=False, wide=False):
+    c = dict(FileRefs='{"x"}', OutRefs='{"", "z"}', ErrRefs='{"", "w"}', MaxFiles=1, MaxDirs=1, MaxChildren=1,
+             States='{"ok", "absent", "garbage"}', RootRefs='{"", "r"}', TreeRefsC='{"t"}', DirFileRefs='{"y"}', DirDirRefs='{"dx"}',
+             Objects='{"x", "y", "z", "w", "dx", "r"}', MaxMissing=1, Batches="{1, 2, 100}", FmFails="{0, 2}", Limits="{1, 99}", ACs='{"ok"}')
+    if wide:
+        c.update(FileRefs='{"x", "bad"}', MaxFiles=2, States='{"ok", "absent", "garbage", "trunc"}', TreeRefsC='{"t", "bad"}', DirFileRefs='{"y", "bad"}',
+                 MaxMissing=2, Batches="{1, 2, 3, 100}", FmFails="{0, 1, 2, 3}", Limits="{0, 1, 2, 99}", ACs='{"ok", "absent", "garbage"}')
+    s = "INIT Init\nNEXT Next\nCONSTANTS\n" + "".join(" %s = %s\n" % kv for kv in c.items()) + ' Mut = "%s"\n' % mut
+    s += "INVARIANTS DesignMeetsContract DesignTransparent%s\n" % (" Emit" if emit else "")
+    return s
+
+
+def cc_random_case(rng):
+    names = ["x", "y", "z", "w", "dx", "dy", "r"]
+    def ref(pool, pbad=0.06):
+        u = rng.random()
+        if u < pbad:
+            return rng.choice(["bad", "badsize"]) if False else "bad"
+        if u < 0.2:
+            return ""
+        return rng.choice(pool)
+    def dirmsg():
+        return {"files": [ref(["x", "y", "z"], 0.04) for _ in range(rng.randint(0, 2))], "dirs": [ref(["dx", "dy"], 0.04) for _ in range(rng.randint(0, 2))]}
+    dirs = []
+    for _ in range(rng.choice([0, 1, 1, 2, 3])):
+        dirs.append({"treeref": "bad" if rng.random() < 0.04 else "t", "rootref": rng.choice(["", "", "r", "r", "bad"] if rng.random() < 0.2 else ["", "r"]),
+                     "state": rng.choice(["ok"] * 6 + ["absent", "trunc", "ioerr", "garbage"]), "root": dirmsg(),
+                     "children": [dirmsg() for _ in range(rng.randint(0, 3))]})
+    missing = rng.sample(names, rng.choice([0, 0, 0, 1, 1, 2]))
+    sizes = [1 + len(d["children"]) for d in dirs]
+    return {"ar": {"files": [ref(["x", "y", "z"]) for _ in range(rng.randint(0, 3))], "stdout": ref(["z", "x"]), "stderr": ref(["w"]), "dirs": dirs},
+            "present": [n for n in names if n not in missing], "batch": rng.choice([1, 1, 2, 3, 5, 100]), "fmFail": rng.choice([0, 0, 0, 1, 2, 3]),
+            "ac": rng.choice(["ok"] * 12 + ["absent", "garbage"]), "sizes": sizes, "limitBytes": rng.choice([99, 99, 99, 0, 1, 2, 3, sum(sizes), max(sum(sizes) - 1, 0)]),
+            "fn": rng.choice(["SHA256", "SHA256", "MD5", "SHA1", "SHA384", "SHA512"]), "cut": rng.randint(0, 1000), "garbage": rng.choice(["child", "varint", "overlong"])}
+
+
+def cc_validate(path, layer):
+    cfg = 'SPECIFICATION TSpec\nPOSTCONDITION Accepted\nCHECK_DEADLOCK FALSE\nCONSTANT Layer = "%s"\n' % layer
+    return validate_obs("CompletenessContractTrace", path, cfg=cfg)
+
+
+def check_c13(pid, tier):
+    t0 = time.time()
+    sd = vlib.seed()
+    rng = random.Random(sd)
+    binary = vlib.go_build_test("comp")
+    work = vlib.scratch("c13")
+    quick = tier == "quick"
+    details = {"mutants_killed": {}}
+    cases = []
+    r = vlib.run_tlc("Completeness", cc_cfg(emit=True), raw_sink=lambda m, raw: cases.append(raw), timeout=3000)
+    vlib.require_model_ok(r, "Completeness")
+    states = r.distinct
+    details["model"] = [{"bounds": "narrow", "cases": r.distinct}]
+    if not quick:
+        rw = vlib.run_tlc("Completeness", cc_cfg(wide=True), timeout=3400)
+        vlib.require_model_ok(rw, "Completeness (wide)")
+        states += rw.distinct
+        details["model"].append({"bounds": "wide (design against contract only; executed cases are sampled at random from a superset)", "cases": rw.distinct})
+    for mut in ["skip_stderr", "drop_full_batch", "skip_tree_children", "no_finalize", "no_size_budget"]:
+        rm = vlib.run_tlc("Completeness", cc_cfg(mut), timeout=900)
+        if rm.violated != "DesignMeetsContract":
+            raise Broken("Completeness mutant %s not killed: %s %s" % (mut, rm.violated, rm.error))
+        details["mutants_killed"][mut] = rm.violated
+    n_enum = len(cases)
+    pick = cases if not quick else rng.sample(cases, min(6000, len(cases)))
+    cp = os.path.join(work, "cases.ndjson")
+    with open(cp, "w") as fh:
+        for raw in pick:
+            fh.write(raw + "\n")
+        n_rand = 4000 if quick else 60000
+        for _ in range(n_rand):
+            fh.write(json.dumps(cc_random_case(rng)) + "\n")
+    rc, out = vlib.run_harness(binary, "TestCompleteness", {"COMP_CASES": cp, "COMP_OUT": work}, timeout=3000)
+    if rc != 0:
+        raise Broken("completeness harness failed:\n" + out[-3000:])
+    op = os.path.join(work, "complete.ndjson")
+    n_events, rejects, vstates = cc_validate(op, "contract")
+    violations = report(pid, sd, rejects)
+    _, drifts, _ = cc_validate(op, "design")
+    if drifts:
+        log("DRIFT property=%s %d observations deviate from the design, first: %s" % (pid, len(drifts), json.dumps(drifts[0]["event"])[:1500]))
+    cov = {"states": states, "transitions": states, "traces_validated_against_impl": n_events,
+           "cases": {"enumerated_by_tlc": n_enum, "executed_enumerated": len(pick), "executed_random": n_rand},
+           "design_conformance": {"observations_compared": n_events, "drifted": len(drifts), "capped_at": 8},
+           "model": details, "trace_validator_states": vstates, "samples": [json.loads(pick[0])]}
+    vlib.write_evidence(pid, tier, "model_checking", cov, time.time() - t0, violations,
+                        ["the CAS is a model (table of named objects, recorded FindMissing / Get calls, n-th FindMissing failing, Trees served truncated / failing mid-stream); the AC is a model returning the generated ActionResult",
+                         "Trees are real REv2 Tree messages marshalled by the protobuf library; garbage variants: a child that is not a Directory, a non length-delimited field, an over-long field",
+                         "the converse (complete results are returned) is checked against the design only, as it is not part of the property"])
+    return 1 if violations else 0
+
+
+CHECKS["C13"] = check_c13
